@@ -201,6 +201,8 @@ void run_one(const Case& cs, size_t index)
     std::string out = fmt_lines(sched.log, 0);
     r.printed = sched.log.size();
     out += "-1 " + std::to_string(verdict) + "\n";
+    write_all(1, out);  // before final(): a crash in final() then still leaves the trace (and adds a `-1 3` line)
+    out.clear();
     std::vector<std::vector<long>> fin;
     Sched::me() = -1;
     comp->final(fin);
